@@ -451,11 +451,41 @@ def scripted_user_kinds(M, rec):
                     pass
 
 
+def large_networks(M, rec):
+    """Scripted in every run: corridors of a few hundred links (a ring road, a city model) - valid as built, and with one
+    ramp / destination / link object placed twice far down the corridor (condition 1), in both modes (the in-situ monitor
+    decides against the nine conditions)."""
+    mk = lambda: M.Link(1, 2, 1.0, 180.0, 33.5, 102.0, 1.867)  # noqa: E731
+    for n_links, fault in ((300, None), (300, "ramp"), (280, "link"), (320, "destination"), (257, "ramp"), (130, "ramp")):
+        nodes = [M.Node() for _ in range(n_links + 1)]
+        path = [nodes[0]]
+        for i in range(n_links):
+            path += [mk(), nodes[i + 1]]
+        dest = M.Destination()
+        net = M.Network().add_path(tuple(path), origin=M.MainstreamOrigin(), destination=dest)
+        ramp = M.MeteredOnRamp(1500.0)
+        net.add_origin(ramp, nodes[n_links - 20])
+        if fault == "ramp":
+            net.add_origin(ramp, nodes[n_links - 5])
+        elif fault == "link":
+            net.add_link(nodes[n_links - 3], path[2 * (n_links - 10) + 1], nodes[n_links - 1])  # a link object of the corridor laid a second time
+        elif fault == "destination":
+            spur = M.Node()
+            net.add_link(nodes[n_links - 2], mk(), spur).add_destination(dest, spur)
+        rec.count("large_networks_validated")
+        for r in (False, True):
+            try:
+                net.is_valid(raises=r)
+            except Exception:
+                pass
+
+
 def run(M, rec, tier, seed, k, n):
     rng = random.Random(seed * 1000 + k + 600)
     mon = ValidMonitor(M, rec).install()
     try:
         scripted_user_kinds(M, rec)
+        large_networks(M, rec)
         if tier == "quick":
             exhaustive(M, rec, rng, 2, 0, 1)
             shared_objects(M, rec, rng, 150)
